@@ -578,6 +578,40 @@ func (fx *FnCtx) globalRef(g *ssa.Global) Val {
 	return Val{t: name}
 }
 
+// globalTable: a package-level map variable of the repository that its package's init builds from constants
+// only (and that no other function assigns or updates, checked by scanning the whole program) denotes a fixed,
+// non-nil map whose content is the table in the source.
+func (fx *FnCtx) globalTable(g *ssa.Global, st *State) (Term, bool) {
+	mt, ok := g.Type().Underlying().(*types.Pointer).Elem().Underlying().(*types.Map)
+	if !ok || !strings.HasPrefix(g.Pkg.Pkg.Path(), modulePath) {
+		return "", false
+	}
+	entries, ok := fx.eng.constTable(g)
+	if !ok {
+		return "", false
+	}
+	mi := fx.tm.mapInfo(mt)
+	ref := "globtab_" + sanitize(g.Pkg.Pkg.Path()+"."+g.Name())
+	if !fx.s.sortSeen[ref] {
+		fx.s.global(ref, fmt.Sprintf("(declare-fun %s () Ref)", ref))
+		fx.s.global(ref+"!ax", fmt.Sprintf("(assert (and (> (obj %s) 0) (< (obj %s) 1000) (= (idx %s) 0)))", ref, ref, ref))
+		dom := fmt.Sprintf("((as const (Array %s Bool)) false)", mi.KeySort)
+		mv0 := "mapval0_" + sanitize(mi.Sort)
+		fx.s.global(mv0, fmt.Sprintf("(declare-fun %s () (Array %s %s))", mv0, mi.KeySort, mi.ValSort))
+		val := mv0
+		for _, e := range entries {
+			k := fx.constVal(e[0]).t
+			v := fx.constVal(e[1]).t
+			dom = fmt.Sprintf("(store %s %s true)", dom, k)
+			val = fmt.Sprintf("(store %s %s %s)", val, k, v)
+		}
+		h := fx.heap(fx.entry, mi.HeapKey, mi.Sort)
+		fx.s.assumeClosed(fmt.Sprintf("(= (select %s %s) (%s %s %s))", h, ref, mi.Ctor, dom, val))
+		fx.trusted["package-level table "+g.Name()+" is built from constants in init and never modified afterwards (no other store or map update to it exists in the program: checked syntactically)"] = true
+	}
+	return ref, true
+}
+
 // ---------------------------------------------------------------------------------------------
 // CFG utilities
 
@@ -1565,6 +1599,12 @@ func (fr *Frame) execUnOp(x *ssa.UnOp, st *State) {
 			fr.env[x] = Val{t: "time_UTC"}
 			return
 		}
+		if g, ok := x.X.(*ssa.Global); ok {
+			if ref, ok := fx.globalTable(g, st); ok {
+				fr.env[x] = Val{t: ref}
+				return
+			}
+		}
 		pv := fr.val(x.X)
 		fr.nilCheck(x, x.X, pv, st)
 		elem := x.X.Type().Underlying().(*types.Pointer).Elem()
@@ -1921,6 +1961,9 @@ func (fr *Frame) execConvert(x *ssa.Convert, st *State) {
 		fx.s.global("bytes_of", "(declare-fun bytes_of (Int) String)")
 		fx.s.assume("true", fmt.Sprintf("(= (bytes_of (sobj %s)) %s)", sl, v.t))
 		fr.env[x] = Val{t: sl}
+	case isByteSlice(from) && isString(to):
+		fx.s.global("bytes_of", "(declare-fun bytes_of (Int) String)")
+		fr.bind(x, Val{t: fmt.Sprintf("(bytes_of (sobj %s))", v.t)})
 	case isFloat(from) || isFloat(to):
 		name := fmt.Sprintf("conv_%s_%s", sanitize(typeKey(from)), sanitize(typeKey(to)))
 		fx.s.global(name, fmt.Sprintf("(declare-fun %s (%s) %s)", name, fx.tm.sortOf(from), fx.tm.sortOf(to)))
